@@ -41,6 +41,10 @@ R(val, vote, st) == [val |-> val, vote |-> vote, st |-> st]
 NoSig == [stop |-> FALSE, fail |-> FALSE, skip |-> FALSE, adv |-> 0]
 QSet(node) == {node.quals[j] : j \in 1..Len(node.quals)}
 Has(node, q) == q \in QSet(node)
+\* the nocontrib of the left of a when/do: the qualifier of the leftmost header, variable or function under ==, = and ->
+\* (Equality._left_nocontrib)
+RECURSIVE LeftNoContrib(_)
+LeftNoContrib(n) == IF n.k \in {"eq", "assign", "when"} THEN LeftNoContrib(n.args[1]) ELSE Has(n, "nocontrib")
 
 \* ---- headers -------------------------------------------------------------------------------------
 \* st.headers: the current header names (append() adds to them); st.line: the current line as a sequence of values
@@ -438,7 +442,7 @@ Ev0(node, st, ctx) ==
          IN IF r.st.unwind THEN Unwound(r.st) ELSE R(VBool(b), b, r.st)
     [] node.k = "when" ->
          LET l == Ev(node.args[1], st, ctx)
-             nc == Has(node.args[1], "nocontrib")
+             nc == LeftNoContrib(node.args[1])
          IN IF l.st.unwind THEN Unwound(l.st)
             ELSE IF l.vote
               THEN LET r == Ev(node.args[2], l.st, ctx)
